@@ -27,16 +27,3 @@ func TestC12Try(t *testing.T) {
 		fmt.Printf("=== %q\n%s", src, tr)
 	}
 }
-
-func TestC12Bench(t *testing.T) {
-	if os.Getenv("C12_BENCH") == "" {
-		t.Skip("developer aid")
-	}
-	run := &runner{}
-	for i := 0; i < 20000; i++ {
-		o := run.run("r", "return 1 + 2 * 3 .. 'a'\n")
-		if o.Kind != "value" {
-			t.Fatal(o)
-		}
-	}
-}
